@@ -18,12 +18,13 @@ type c15Case struct {
 	Hosts []string `json:"hosts"`
 }
 
-var c15Domains = []string{"example.org", "sub.example.org", "example.com", "google.*", "example.*", "a.com", "b.a.com", "kobe.jp", "x.kobe.jp", "github.io", "me.github.io", "org", "localhost"}
+var c15Domains = []string{"example.org", "sub.example.org", "example.com", "google.*", "example.*", "a.com", "b.a.com", "kobe.jp", "x.kobe.jp", "github.io", "me.github.io", "org", "localhost",
+	"ample.org", "notexample.org", "le.com", "ithub.io"} // textual suffixes / extensions of other entries that do not sit on a label boundary
 var c15Selectors = []string{".a", ".b", "#c", "div[x=\"1\"]", ".banner > a", "#c"}
 
 func c15HostsFor(lines []string) []string {
 	hosts := []string{"example.org", "sub.example.org", "x.sub.example.org", "example.com", "google.co.uk", "www.google.com", "notexample.org",
-		"a.com", "b.a.com", "c.b.a.com", "zzz.net", "x.google.y.notgoogle.com", "example.kobe.jp", "google.github.io", "example.local", "me.github.io", "localhost", "sub.localhost", "org", "example.org.", "sub..example.org", ".a.com"}
+		"a.com", "b.a.com", "c.b.a.com", "zzz.net", "x.google.y.notgoogle.com", "example.kobe.jp", "google.github.io", "example.local", "me.github.io", "localhost", "sub.localhost", "org", "example.org.", "sub..example.org", ".a.com", "ample.org", "x.ample.org", "le.com"}
 	return hosts
 }
 
